@@ -1,0 +1,83 @@
+//go:build verif
+
+package standard
+
+import (
+	"context"
+
+	apiv1 "github.com/attestantio/go-builder-client/api/v1"
+	builderspec "github.com/attestantio/go-builder-client/spec"
+	consensusclient "github.com/attestantio/go-eth2-client"
+	"github.com/attestantio/go-eth2-client/spec/bellatrix"
+	"github.com/attestantio/go-eth2-client/spec/phase0"
+	"github.com/attestantio/vouch/services/accountmanager"
+	"github.com/attestantio/vouch/services/blockrelay"
+	"github.com/attestantio/vouch/services/chaintime"
+	"github.com/attestantio/vouch/services/metrics"
+	"github.com/attestantio/vouch/services/signer"
+	"github.com/rs/zerolog"
+	zerologger "github.com/rs/zerolog/log"
+	"golang.org/x/sync/semaphore"
+)
+
+// NewForVerifC11 builds a Service without the REST daemon, the scheduler jobs, the initial
+// configuration fetch and the initial registration round, for driving the validator
+// registration round and the forwarding of registrations with a given execution configuration.
+// Only compiled with the "verif" build tag.
+func NewForVerifC11(logLevel zerolog.Level,
+	monitor metrics.Service,
+	chainTime chaintime.Service,
+	fallbackFeeRecipient bellatrix.ExecutionAddress,
+	fallbackGasLimit uint64,
+	validatingAccountsProvider accountmanager.ValidatingAccountsProvider,
+	validatorRegistrationSigner signer.ValidatorRegistrationSigner,
+	secondaryValidatorRegistrationsSubmitters []consensusclient.ValidatorRegistrationsSubmitter,
+	executionConfig blockrelay.ExecutionConfigurator,
+) *Service {
+	log := zerologger.With().Str("service", "blockrelay").Str("impl", "standard").Logger().Level(logLevel)
+
+	return &Service{
+		log:                          log,
+		monitor:                      monitor,
+		chainTime:                    chainTime,
+		fallbackFeeRecipient:         fallbackFeeRecipient,
+		fallbackGasLimit:             fallbackGasLimit,
+		validatingAccountsProvider:   validatingAccountsProvider,
+		validatorRegistrationSigner:  validatorRegistrationSigner,
+		latestValidatorRegistrations: make(map[phase0.BLSPubKey]phase0.Root),
+		signedValidatorRegistrations: make(map[phase0.Root]*apiv1.SignedValidatorRegistration),
+		secondaryValidatorRegistrationsSubmitters: secondaryValidatorRegistrationsSubmitters,
+		releaseVersion:       "verif",
+		builderBidsCache:     make(map[string]map[string]*builderspec.VersionedSignedBuilderBid),
+		executionConfig:      executionConfig,
+		activitySem:          semaphore.NewWeighted(1),
+		controlledValidators: make(map[phase0.BLSPubKey]struct{}),
+	}
+}
+
+// VerifC11RunRegistrationsJob runs the scheduled registration round
+// (the job registered as "Submit validator registrations").
+func (s *Service) VerifC11RunRegistrationsJob(ctx context.Context) {
+	s.submitValidatorRegistrations(ctx)
+}
+
+// VerifC11SetExecutionConfig replaces the execution configuration (nil = none available),
+// as a completed fetch of the configuration would.
+func (s *Service) VerifC11SetExecutionConfig(executionConfig blockrelay.ExecutionConfigurator) {
+	s.executionConfigMu.Lock()
+	s.executionConfig = executionConfig
+	s.executionConfigMu.Unlock()
+}
+
+// VerifC11RegistrationCacheSizes returns the number of cached signed registrations and the number
+// of validators with a latest registration.
+func (s *Service) VerifC11RegistrationCacheSizes() (int, int) {
+	s.signedValidatorRegistrationsMu.RLock()
+	signed := len(s.signedValidatorRegistrations)
+	s.signedValidatorRegistrationsMu.RUnlock()
+	s.latestValidatorRegistrationsMu.RLock()
+	latest := len(s.latestValidatorRegistrations)
+	s.latestValidatorRegistrationsMu.RUnlock()
+
+	return signed, latest
+}
